@@ -90,6 +90,7 @@ type actxState struct {
 	events    []actxEvent
 	savedDep  map[*types.Var]bool // a dependent call happened after the field was saved into a local
 	compFail  []string
+	closures  map[types.Object]*ast.FuncLit // locals bound (once, so far) to a parameterless function literal
 }
 
 func actxClone(s *actxState) *actxState {
@@ -114,6 +115,12 @@ func actxClone(s *actxState) *actxState {
 	n.defers = append([]*ast.DeferStmt(nil), s.defers...)
 	n.events = append([]actxEvent(nil), s.events...)
 	n.compFail = append([]string(nil), s.compFail...)
+	if len(s.closures) > 0 {
+		n.closures = map[types.Object]*ast.FuncLit{}
+		for k, v := range s.closures {
+			n.closures[k] = v
+		}
+	}
 	return n
 }
 
@@ -199,6 +206,9 @@ func (r *actxRun) irrelevantX(n ast.Node, loopBody bool) bool {
 				ok = false
 			}
 			if g := CalleeOf(r.m.info, y); g != nil && r.m.decls[g] != nil && (r.m.touchesAny(g) || r.m.inlinable[g]) {
+				ok = false
+			}
+			if actxIsDynCall(r.m.info, y) {
 				ok = false
 			}
 		case *ast.AssignStmt:
@@ -392,7 +402,13 @@ func (r *actxRun) walk(fn *types.Func, body *ast.BlockStmt, st *actxState, top b
 			d := st.defers[i]
 			var next []*actxState
 			for _, s := range states {
-				if fl, ok := d.Call.Fun.(*ast.FuncLit); ok {
+				fl, ok := d.Call.Fun.(*ast.FuncLit)
+				if !ok {
+					if cl := r.closureOf(s, d.Call); cl != nil {
+						fl, ok = cl, true
+					}
+				}
+				if ok {
 					s2 := actxClone(s)
 					s2.defers = nil
 					for _, e := range r.walk(fn, fl.Body, s2, false) {
@@ -473,6 +489,30 @@ func (r *actxRun) snapshot(st *actxState) map[*types.Var]actxVal {
 func (r *actxRun) call(fn *types.Func, st *actxState, c *ast.CallExpr) {
 	m := r.m
 	g := CalleeOf(m.info, c)
+	if fl := r.closureOf(st, c); fl != nil {
+		r.inlineLit(fn, st, fl)
+		return
+	}
+	if (g == nil || m.decls[g] == nil) && actxIsDynCall(m.info, c) {
+		// a call through a function value: code of the package that depends on any context field may run
+		for _, f := range m.sortedCtx() {
+			v := st.vals[f]
+			if v.pending != "" {
+				st.compFail = append(st.compFail, fmt.Sprintf("%s is left modified by %s and a function value (which may depend on it) is called at %s before it is restored", m.fieldName(f), v.pending, r.m.c.Pos(c.Pos())))
+				v.pending = ""
+			}
+			if !v.atEntry() && !v.dirty {
+				v.dirty = true
+			}
+			st.vals[f] = v
+			for _, l := range st.locals {
+				if l.kind == alSave && l.f == f {
+					st.savedDep[f] = true
+				}
+			}
+		}
+		return
+	}
 	if g == nil || m.decls[g] == nil {
 		return
 	}
@@ -487,7 +527,8 @@ func (r *actxRun) call(fn *types.Func, st *actxState, c *ast.CallExpr) {
 		return
 	}
 	st.events = append(st.events, actxEvent{callee: g, call: c, vals: r.snapshot(st)})
-	for f, v := range st.vals {
+	for _, f := range m.sortedCtx() {
+		v := st.vals[f]
 		if !m.touch[f][g] {
 			continue
 		}
@@ -512,6 +553,48 @@ func (r *actxRun) call(fn *types.Func, st *actxState, c *ast.CallExpr) {
 			st.vals[f] = v
 		}
 	}
+}
+
+// closureOf: the call invokes a local variable that holds a parameterless function literal.
+func (r *actxRun) closureOf(st *actxState, c *ast.CallExpr) *ast.FuncLit {
+	id, ok := ast.Unparen(c.Fun).(*ast.Ident)
+	if !ok || len(c.Args) != 0 || st.closures == nil {
+		return nil
+	}
+	return st.closures[r.m.info.Uses[id]]
+}
+
+// inlineLit interprets the body of a local closure at its call site (the
+// conditions of the path so far are kept, so a branch of the closure that
+// contradicts them is not taken).
+func (r *actxRun) inlineLit(fn *types.Func, st *actxState, fl *ast.FuncLit) {
+	if r.depth >= 6 {
+		return
+	}
+	sub := actxClone(st)
+	sub.defers = nil
+	r.depth++
+	exits := r.walk(fn, fl.Body, sub, false)
+	r.depth--
+	if len(exits) == 0 {
+		return
+	}
+	res := exits[0].st.vals
+	for _, e := range exits[1:] {
+		for f, v := range e.st.vals {
+			a := res[f]
+			if a.kind != v.kind || a.k != v.k || a.delta != v.delta || a.gen != v.gen {
+				a.kind, a.why = avAmbig, "differs between the paths of the local closure"
+				res[f] = a
+			}
+		}
+	}
+	st.vals = res
+	st.stash = exits[0].st.stash
+	st.compFail = exits[0].st.compFail
+	st.events = exits[0].st.events
+	st.savedDep = exits[0].st.savedDep
+	st.locals = exits[0].st.locals
 }
 
 // inline interprets a leaf setter at its call site.
@@ -613,10 +696,20 @@ func (r *actxRun) stmt(fn *types.Func, st *actxState, s ast.Stmt) {
 				}
 				r.invalidate(st, obj)
 				delete(st.locals, obj)
+				if st.closures != nil {
+					delete(st.closures, obj)
+				}
 				if len(x.Rhs) != len(x.Lhs) {
 					continue
 				}
 				rh := ast.Unparen(x.Rhs[i])
+				if fl, isLit := rh.(*ast.FuncLit); isLit && (fl.Type.Params == nil || len(fl.Type.Params.List) == 0) {
+					if st.closures == nil {
+						st.closures = map[types.Object]*ast.FuncLit{}
+					}
+					st.closures[obj] = fl
+					continue
+				}
 				if f, _ := m.fieldOf(rh); f != nil && m.ctx[f] != nil {
 					st.locals[obj] = actxLocal{kind: alSave, f: f, snap: r.snapshot(st)}
 					delete(st.savedDep, f)
@@ -709,6 +802,11 @@ func (r *actxRun) write(st *actxState, f *types.Var, k actxWriteKind, rhs ast.Ex
 		if rhs != nil {
 			if l, ok := r.localOf(st, rhs); ok && l.f == f {
 				nv := l.snap[f]
+				if !nv.atEntry() && nv.lastW != token.NoPos {
+					// the local was saved after the field had already been overwritten in this function:
+					// what is written back is not the value the function was entered with
+					nv.why = "written back from a local that was saved only after the field had been overwritten at " + m.c.Pos(nv.lastW)
+				}
 				nv.lastW = pos
 				nv.dirty = v.dirty && !nv.atEntry()
 				v = nv
